@@ -77,7 +77,8 @@ impl C16 {
         let cfg = MCfg { m128, kempston: true, mouse: sc.get("mouse") != 0, ay: true, ay_mode: 1, sound: d.sound, fastload: sc.get("fastload") != 0, ..Default::default() };
         let mut e = new_emu(&cfg);
         let tape_img = sc.ops.iter().find(|o| o.k == "tape").map(|o| o.b.clone()).unwrap_or_default();
-        let chunk = 1 + (d.seed % 4096) as usize;
+        // read sizes of the chunking asset: mostly small (short reads inside every buffer refill)
+        let chunk = [1usize, 2, 3, 5, 7, 13, 23, 32, 46, 64, 100, 127, 129, 1000, 4096, 40000][(d.seed % 16) as usize];
         // content
         match sc.get("content") {
             1 => {
@@ -89,6 +90,35 @@ impl C16 {
                 let st = crate::cpustate::CpuState::random(&mut r);
                 let mut st = st;
                 st.pc = 0x8000 | (st.pc & 0x3FFF);
+                st.to_impl(e.verif_cpu());
+            }
+            3 => {
+                // a program that calls the ROM tape loader twice (fast load trap / real-time loader)
+                let mut r = Rng::new(sc.get("content_seed") as u64);
+                for p in 0..ram_pages(m128) {
+                    r.fill(e.verif_ram_page(p));
+                }
+                e.verif_refresh_screen();
+                let (blocks, _) = tape::tap_blocks(&tape_img);
+                let mut prog: Vec<u8> = vec![];
+                if m128 {
+                    prog.extend_from_slice(&[0x01, 0xFD, 0x7F, 0x3E, 0x10, 0xED, 0x79]); // LD BC,7FFD; LD A,10; OUT (C),A
+                }
+                let mut dest = 0x9000u16;
+                for b in blocks.iter().take(3) {
+                    let len = b.len().saturating_sub(2) as u16;
+                    let flag = b.first().copied().unwrap_or(0xFF);
+                    prog.extend_from_slice(&[0xDD, 0x21, dest as u8, (dest >> 8) as u8]); // LD IX,dest
+                    prog.extend_from_slice(&[0x11, len as u8, (len >> 8) as u8]); // LD DE,len
+                    prog.extend_from_slice(&[0x3E, flag, 0x37, 0xCD, 0x56, 0x05]); // LD A,flag; SCF; CALL 0556
+                    dest = dest.wrapping_add(0x400);
+                }
+                prog.extend_from_slice(&[0x18, 0xFE]); // JR $
+                write_mem(&mut e, 0x8000, &prog);
+                let mut st = crate::cpustate::CpuState::default();
+                st.pc = 0x8000;
+                st.sp = 0x8F00;
+                st.im = 1;
                 st.to_impl(e.verif_cpu());
             }
             2 => {
@@ -115,7 +145,16 @@ impl C16 {
         let always_drain = d.drain == 0 && (d.mode == 0 || d.mode == 3);
         // driving-specific set-up
         match d.mode {
-            3 => set_break_mode(&mut e, if d.p1 > 0 { BreakMode::EveryNth(d.p1 as u64) } else { BreakMode::Always }),
+            3 => set_break_mode(
+                &mut e,
+                if d.p1 == 1_000_001 {
+                    BreakMode::Set(vec![0x056B, 0x0556, 0x053F, 0x8000, 0x0038])
+                } else if d.p1 > 0 {
+                    BreakMode::EveryNth(d.p1 as u64)
+                } else {
+                    BreakMode::Always
+                },
+            ),
             _ => set_break_mode(&mut e, BreakMode::Never),
         }
         while frame < k {
@@ -249,14 +288,14 @@ impl Property for C16 {
         vec!["host inputs are applied only at frame boundaries (as the property states)", "audio streams are compared only between drivings that drain at every frame boundary"]
     }
     fn expected_probes(&self) -> Vec<&'static str> {
-        vec!["cmp_framecount_n", "cmp_max_mode", "cmp_breakpoints", "cmp_sound_off", "cmp_asset_kind", "cmp_repeat", "audio_compared"]
+        vec!["cmp_framecount_n", "cmp_max_mode", "cmp_breakpoints", "cmp_sound_off", "cmp_asset_kind", "cmp_repeat", "audio_compared", "loader_program"]
     }
 
     fn gen(&self, rng: &mut Rng, tier: Tier, _idx: u64) -> Scenario {
         let mut sc = Scenario::new();
         let m128 = rng.bool();
         sc.set("m128", m128 as i64);
-        let content = *rng.pick(&[0i64, 1, 1, 2, 2, 2]);
+        let content = *rng.pick(&[0i64, 1, 1, 2, 2, 2, 3, 3]);
         sc.set("content", content);
         sc.set("content_seed", (rng.next() >> 2) as i64);
         sc.set("mouse", rng.bool() as i64);
@@ -267,8 +306,15 @@ impl Property for C16 {
         };
         sc.set("frames", k);
         // tape (small) for insertion events
-        let blocks = super::c12::gen_tape(rng, 2, 60);
+        let blocks = if content == 3 { super::c12::gen_tape(rng, 3, 302) } else { super::c12::gen_tape(rng, 2, 60) };
         sc.push(Op::blob("tape", &[], tape::make_tap(&blocks)));
+        if content == 3 {
+            // the tape is in the deck from the start; in half of the runs it also plays (real-time loader)
+            sc.op("ev", &[0, 11, 0, 0]);
+            if rng.bool() {
+                sc.op("ev", &[0, 7, 0, 0]);
+            }
+        }
         let n_ev = rng.range(0, 14);
         let mut tape_loaded = false;
         for _ in 0..n_ev {
@@ -301,7 +347,7 @@ impl Property for C16 {
             let mode = *rng.pick(&[0i64, 1, 1, 2, 2, 3, 3]);
             let p1 = match mode {
                 1 | 2 => rng.range(1, 6),
-                3 => *rng.pick(&[0i64, 1, 2, 3, 7, 100, 1000, 69888 / 4]),
+                3 => *rng.pick(&[0i64, 0, 1, 2, 3, 7, 100, 1000, 69888 / 4, 1_000_001, 1_000_001]),
                 _ => 0,
             };
             let p2 = rng.range(0, 2);
@@ -322,6 +368,9 @@ impl Property for C16 {
             .collect();
         if drives.len() < 2 {
             return Ok(());
+        }
+        if sc.get("content") == 3 {
+            ctx.probe("loader_program");
         }
         let mut base: Option<Trace> = None;
         for (di, d) in drives.iter().enumerate() {
